@@ -102,6 +102,8 @@ def run_mux_case(case, judged):
         # at elaboration (finding F3, fixed; C19 checks the refusal). Nothing to simulate.
         return mon.result(skipped="shadow_overlaps unsatisfiable for this unaligned layout (refused at elaboration)",
                           summary=summary)
+    from vmon.simkit import decoy
+    decoy(rng, lambda: csr.Multiplexer(build_map(layout)[0], shadow_overlaps=layout["overlaps"]))
     dut = csr.Multiplexer(mm, shadow_overlaps=layout["overlaps"])
     bus = dut.bus
     model = MuxModel(regs, dw)
